@@ -34,13 +34,19 @@ Record mrule := mkM {
 Definition directory_deps (os : list out) : list node :=
   map NDir (filter (fun d => negb (d =? 0)) (nuniq (map o_dir os))).
 
-(* writer.py multitarget_rule.  None: targets[0] on an empty list raises IndexError *)
-Definition multitarget_rule (targets : list out) (deps order : list node) (recipe phony : bool) : option (list mrule) :=
+(* writer.py multitarget_rule.  None: targets[0] on an empty list raises IndexError.
+   [fx] selects the variant of the rule  outs: first.stamp  of a multi-output step:
+     fx = false  buildfile.rule(target=targets, deps=[primary])                            no recipe (as first written)
+     fx = true   buildfile.rule(target=targets, deps=[primary], recipe=[Silent([':'])])    the no-op recipe  @:
+   (repair of finding C03-make-stamp-consumer-stale: with a recipe GNU Make looks at the outputs again after the
+   stamp's recipe ran; Graph/StampSem.v).  The harness probes the tree under test and passes the variant it finds. *)
+Definition multitarget_rule (fx : bool) (targets : list out) (deps order : list node) (recipe phony : bool) :
+  option (list mrule) :=
   match targets with
   | [] => None
   | [t] => Some [mkM [NF (o_file t)] deps order recipe phony]
   | t :: _ :: _ =>
-      Some [mkM (map (fun o => NF (o_file o)) targets) [NStamp (o_file t)] [] false false;
+      Some [mkM (map (fun o => NF (o_file o)) targets) [NStamp (o_file t)] [] fx false;
             mkM [NStamp (o_file t)] deps order true phony]
   end.
 
@@ -53,16 +59,16 @@ Definition make_compile_deps (st : step) : list N :=
 Definition make_link_deps (st : step) : list N :=
   s_files st ++ s_libs st ++ s_pkg_deps st ++ s_module_defs st ++ s_manifest st ++ s_extra_deps st.
 
-Definition emit_make_step (st : step) : option (list mrule) :=
+Definition emit_make_step (fx : bool) (st : step) : option (list mrule) :=
   match s_kind st with
   | KCompile =>
-      multitarget_rule (s_outputs st) (fs_ (make_compile_deps st)) (directory_deps (s_outputs st)) true false
+      multitarget_rule fx (s_outputs st) (fs_ (make_compile_deps st)) (directory_deps (s_outputs st)) true false
   | KLink =>
-      multitarget_rule (s_outputs st) (fs_ (make_link_deps st)) (directory_deps (s_outputs st)) true false
+      multitarget_rule fx (s_outputs st) (fs_ (make_link_deps st)) (directory_deps (s_outputs st)) true false
   | KCommand =>
-      multitarget_rule (s_outputs st) (fs_ (s_files st ++ s_extra_deps st)) [] true (s_phony st)
+      multitarget_rule fx (s_outputs st) (fs_ (s_files st ++ s_extra_deps st)) [] true (s_phony st)
   | KBuildStep =>
-      multitarget_rule (s_outputs st) (fs_ (s_files st ++ s_extra_deps st)) (directory_deps (s_outputs st)) true
+      multitarget_rule fx (s_outputs st) (fs_ (s_files st ++ s_extra_deps st)) (directory_deps (s_outputs st)) true
                        (s_phony st)
   | KCopyFile =>
       (* buildfile.rule(target=rule.output, ...): one rule, no stamp; Makefile.rule rejects an empty target list *)
@@ -78,11 +84,11 @@ Definition emit_make_step (st : step) : option (list mrule) :=
       end
   end.
 
-Fixpoint emit_make_steps (steps : list step) : option (list mrule) :=
+Fixpoint emit_make_steps (fx : bool) (steps : list step) : option (list mrule) :=
   match steps with
   | [] => Some []
   | st :: r =>
-      match emit_make_step st, emit_make_steps r with
+      match emit_make_step fx st, emit_make_steps fx r with
       | Some a, Some b => Some (a ++ b)
       | _, _ => None
       end
@@ -101,8 +107,8 @@ Definition make_install_rules (sc : script) : list mrule :=
   (if sc_install sc then [mkM [NF (sc_install_name sc)] [NF (sc_all sc)] [] true true] else []) ++
   (if sc_uninstall sc then [mkM [NF (sc_uninstall_name sc)] [] [] true true] else []).
 
-Definition emit_make (sc : script) : option (list mrule) :=
-  match emit_make_steps (sc_steps sc) with
+Definition emit_make (fx : bool) (sc : script) : option (list mrule) :=
+  match emit_make_steps fx (sc_steps sc) with
   | Some rs => Some (make_all_rule sc ++ rs ++ make_test_rules sc ++ make_install_rules sc)
   | None => None
   end.
